@@ -9,6 +9,7 @@ root records, per socket object, every event that carries the socket; the oracle
 deciders (generic container scan of the component tree, weakref/gc reachability) and an fd census
 (DESIGN.md 2.5, 2.8 and section 4, C12).
 """
+import errno
 import gc
 import os
 import random
@@ -17,6 +18,7 @@ import shutil
 import socket
 import struct
 import tempfile
+import time
 import weakref
 
 from vlib.batch import Batch, BudgetExceeded, cpu_budget, unjson
@@ -49,7 +51,7 @@ ASSUMPTIONS = [
     'a connection whose peer is gone while the server still waits to write to it ends only when the kernel resets it (zero-window probe timer): the harness waits '
     'up to 3 s for that and calls the case inconclusive, not violated, if the kernel still shows no error/hang-up on the descriptor',
 ]
-REQUIRED = ['late_event_before_disconnect_was_dispatched', 'poller_Select', 'poller_Poll', 'poller_EPoll', 'family_tcp', 'family_unix', 'peer_half_close', 'peer_close', 'peer_abort',
+REQUIRED = ['server_wide_close_with_several_connections', 'late_event_before_disconnect_was_dispatched', 'poller_Select', 'poller_Poll', 'poller_EPoll', 'family_tcp', 'family_unix', 'peer_half_close', 'peer_close', 'peer_abort',
             'peer_reset_before_accept', 'peer_close_while_server_writing', 'server_buffer_filled', 'server_close_event', 'server_close_while_buffered', 'late_write', 'late_close',
             'concurrent_ge3', 'concurrent_6', 'read_split_over_events', 'strict_equality_checked', 'prefix_checked', 'residue_scanned',
             'weakref_checked', 'residue_deciders_agree', 'fd_census_taken', 'connects_before_first_tick', 'client_peer_close', 'client_peer_abort',
@@ -248,6 +250,10 @@ class World:
         return cond()
 
 
+def wait_of(op):
+    return not (len(op) > 1 and op[-1] == 'nw')
+
+
 def _linger0(s):
     s.setsockopt(socket.SOL_SOCKET, socket.SO_LINGER, struct.pack('ii', 1, 0))
 
@@ -268,11 +274,20 @@ class ServerWorld(World):
         if opts:
             kw2['socket_options'] = opts
         if self.family == 'tcp':
-            self.server = TCPServer(('127.0.0.1', 0), **kw2).register(self.root)
+            from vlib.netwait import retry_addr_in_use
+            try:
+                self.server = retry_addr_in_use(lambda: TCPServer(('127.0.0.1', 0), **kw2)).register(self.root)
+            except OSError as e:
+                if e.errno != errno.EADDRINUSE:
+                    raise
+                raise Inconclusive('no free loopback port to listen on (EADDRINUSE for port 0)')
         else:
             self.tmpdir = tempfile.mkdtemp(prefix='vc12-', dir='/var/tmp')
             self.server = UNIXServer(os.path.join(self.tmpdir, 's'), **kw2).register(self.root)
         self.listen_sock = _socket_attr(self.server)      # the listening socket the component created (found generically, not by name)
+        self.listen_fd = self.listen_sock.fileno()
+        self.server_closed = False
+        self.early_problems = []
         self.addr = self.listen_sock.getsockname()
         self.peers = {}       # p -> dict(sock, sent, rx, state, conn index)
         self.order = []       # peers in connect order (accept is FIFO)
@@ -348,8 +363,29 @@ class ServerWorld(World):
         kind, p = op[0], op[1] if len(op) > 1 else None
         wait = not (len(op) > 2 and op[-1] == 'nw')
         P = self.peers.get(p)
+        if kind == 'scloseall':
+            # close() without a socket: the server as a whole - every connection (after its buffer has drained) and the listening socket
+            if self.server_closed:
+                return
+            self.server_closed = True
+            live = [c for c in self.conns if not self.disconnected(c)]
+            self.marks.add('server_wide_close')
+            if len(live) >= 2:
+                self.marks.add('server_wide_close_with_several_connections')
+            for c in live:
+                self.closed_by_server.add(c.index)
+            self.fire(nev.close(), kind, None)
+            if wait_of(op):
+                self.advance(lambda: False)
+                # a connection with nothing left to write is ended by the server-wide close itself (not by whatever the peer does later)
+                left = [c.index for c in live if not self.disconnected(c) and c.strong.fileno() >= 0 and not self.poller.isWriting(c.strong)]
+                if left:
+                    self.early_problems.append(('ONE_DISCONNECT', 'server-wide-close', {
+                        'note': 'close() of the whole server has been handled, these connections had nothing buffered, yet they were not ended',
+                        'connections_still_open': left, 'connections_at_the_time': [c.index for c in live]}))
+            return
         if kind == 'connect':
-            if P is not None:
+            if P is not None or self.server_closed:
                 return
             s = socket.socket(socket.AF_INET if self.family == 'tcp' else socket.AF_UNIX, socket.SOCK_STREAM)
             if self.case.get('small'):
@@ -357,7 +393,8 @@ class ServerWorld(World):
                 s.setsockopt(socket.SOL_SOCKET, socket.SO_SNDBUF, SMALL)
             s.settimeout(5)
             try:
-                s.connect(self.addr)
+                from vlib.netwait import retry_addr_in_use
+                retry_addr_in_use(lambda: s.connect(self.addr), attempts=5)
             except OSError as e:
                 s.close()
                 raise Inconclusive('loopback connect failed: %r' % e)
@@ -492,8 +529,9 @@ class ServerWorld(World):
     # -- the history -------------------------------------------------------------------------------
     def run(self):
         from vlib.residue import fd_census, scan
-        problems = []
+        problems = self.early_problems
         counts = dict.fromkeys(REQUIRED_OBLIGATIONS, 0)
+        gc.collect()          # descriptors of earlier cases that only the collector closes must not be counted as open now and lost later
         census0 = fd_census()
         self.marks.add('fd_census_taken')
         for op in self.case['ops']:
@@ -502,6 +540,7 @@ class ServerWorld(World):
         for p in list(self.peers):
             if self.peers[p]['state'] != 'closed':
                 self.do(['close', p, 'nw'])
+        self._forget_unaccepted()
         self.advance(lambda: len(self.conns) >= len(self.order), hard=True)
         all_done = self.advance(lambda: all(self.disconnected(c) for c in self.conns), hard=True)
         if not all_done and not World.giveups > 5:
@@ -519,6 +558,7 @@ class ServerWorld(World):
         for op in self.case.get('late', []):
             self.do(op)
         self.advance(lambda: False)
+        self._forget_unaccepted()
         if len(self.conns) < len(self.order):
             problems.append(('ONE_CONNECT', 'accept', {'note': 'connections that completed the handshake were never announced', 'connected_peers': len(self.order),
                                                        'sockets_seen': len(self.conns), 'kernel_pending': self.kernel_pending(0)}))
@@ -566,7 +606,7 @@ class ServerWorld(World):
         if all(self.disconnected(c) for c in self.conns):
             census1 = fd_census()
             extra = {fd: t for fd, t in census1.items() if fd not in census0}
-            gone = {fd: t for fd, t in census0.items() if fd not in census1}
+            gone = {fd: t for fd, t in census0.items() if fd not in census1 and not (self.server_closed and fd == self.listen_fd)}
             if extra or gone:
                 problems.append(('FD_CENSUS', 'leak' if extra else 'lost', {'still_open': extra, 'closed_but_was_open_before': gone}))
         # ---- residue, decider (i): generic scan of the component tree -----------------------------------
@@ -610,6 +650,18 @@ class ServerWorld(World):
                 tag = '+'.join(sorted(self.classify(found, late, c))) if found else 'unscanned-holder'
                 problems.append(('SOCKET_RELEASED', tag, {'conn': c.index, 'still_referenced_by': who, 'scan': found, 'late_ops_addressed_to_it': late}))
         return problems, counts
+
+    def _forget_unaccepted(self):
+        """connections still waiting in the listen queue when the server closed its listening socket were never the server's"""
+        if not self.server_closed:
+            return
+        self.advance(lambda: False)
+        if self.listen_sock.fileno() >= 0 or len(self.conns) >= len(self.order):
+            return
+        for p in self.order[len(self.conns):]:
+            self.peers[p]['unsighted'] = True
+        del self.order[len(self.conns):]
+        self.marks.add('server_closed_with_connections_waiting_to_be_accepted')
 
     def classify(self, found, late, c):
         """Split the places a socket was found in by mechanism (used for the known-finding attribution only;
@@ -730,7 +782,8 @@ class ClientWorld(World):
         from circuits.net.sockets import TCPClient
         self.listener = socket.socket(socket.AF_INET, socket.SOCK_STREAM)
         self.listener.setsockopt(socket.SOL_SOCKET, socket.SO_RCVBUF, SMALL)     # inherited by the accepted sockets
-        self.listener.bind(('127.0.0.1', 0))
+        from vlib.netwait import retry_addr_in_use
+        retry_addr_in_use(lambda: self.listener.bind(('127.0.0.1', 0)))
         self.listener.listen(16)
         self.listener.setblocking(False)
         self.addr = self.listener.getsockname()
@@ -994,6 +1047,12 @@ def corpus_histories():
     hs.append(('three-at-once', {}, [[C, 0, 'nw'], [C, 1, 'nw'], [C, 2], [S, 0, 10, 'nw'], [S, 1, 20, 'nw'], [S, 2, 30], [X, 1], [H, 0], [A, 2]], []))
     hs.append(('six', {'bufsize': 256}, [[C, i, 'nw'] for i in range(6)] + [[S, i, 100 * (i + 1), 'nw'] for i in range(6)] + [['step', 2]] +
                [[X, 0, 'nw'], [A, 1, 'nw'], [H, 2, 'nw'], [Z, 3, 'nw'], [W, 4, 100, 'nw'], [X, 5]], [[W, 0, 5], [Z, 1]]))
+    for k in (1, 2, 3, 5):
+        hs.append(('server-wide-close-%d' % k, {}, [[C, i] for i in range(k)] + [[S, i, 10 * (i + 1)] for i in range(k)] + [['scloseall']], [[W, 0, 5], [Z, k - 1]]))
+        hs.append(('server-wide-close-%d-idle' % k, {}, [[C, i] for i in range(k)] + [['scloseall']], []))
+    hs.append(('server-wide-close-mixed', {'small': True}, [[C, 0], [C, 1], [C, 2], [C, 3], [S, 0, 10], [W, 1, 400000], [H, 2], [S, 3, 30, 'nw'], ['scloseall'],
+                                                            [D, 1], [D, 1], [D, 1], [D, 1], [X, 1]], [[W, 2, 5]]))
+    hs.append(('server-wide-close-after-some-left', {}, [[C, 0], [C, 1], [C, 2], [C, 3], [X, 1], [A, 2], ['scloseall', 'nw'], [S, 0, 5, 'nw'], ['step', 2]], []))
     hs.append(('reconnect-same-fd-number', {}, [[C, 0], [S, 0, 10], [X, 0], [C, 1], [S, 1, 10], [X, 1], [C, 2], [S, 2, 10], [A, 2]], []))
     return hs
 
@@ -1076,6 +1135,8 @@ def gen_server_case(rng, poller=None, family=None):
             ops.append(['drain', rng.choice(sorted(alive))])
         else:
             ops.append(['step', rng.randint(1, 3)])
+    if rng.random() < 0.2:
+        ops.insert(rng.randint(max(0, len(ops) - 6), len(ops)), ['scloseall'] + (['nw'] if rng.random() < 0.3 else []))
     late = []
     for p in range(nxt):
         r = rng.random()
@@ -1176,6 +1237,10 @@ def evaluate_case(b, case):
         b.fail(case, 'HARNESS_RAISED', {'error': repr(e), 'tb': traceback.format_exc(limit=8)}, dedup=type(e).__name__)
         return
     b.case(case, nontrivial=info['nontrivial'])
+    if not problems:
+        # the shortened waits are for trees that already failed an obligation; a bounded wait that expired in a case which then met every
+        # obligation must not make later cases of this process impatient
+        World.giveups = 0
     for m in info['marks']:
         b.reached(m)
     groups = {}
